@@ -21,7 +21,7 @@ open Mp4ff Mp4ff.Boxes Mp4ff.Layout
 
 /-- plain containers: `DecodeContainerChildren[SR](hdr, startPos+8, startPos+hdr.Size, …)` and `AddChild` -/
 def plain : List String :=
-  ["moov", "trak", "mdia", "minf", "stbl", "dinf", "edts", "mvex", "moof", "traf", "mfra", "udta", "sinf", "schi", "ludt"]
+  ["moov", "trak", "mdia", "minf", "stbl", "dinf", "edts", "mvex", "moof", "traf", "mfra", "udta", "sinf", "schi", "ludt", "vttc"]
 
 /-- a container whose children follow a fixed-syntax prefix -/
 structure PSpec where
@@ -48,8 +48,11 @@ def visual : PSpec := { pre := visualPre, valid := fun t => t.nat "compressor_na
 /-- stsd / dref: full box, entry count, children; the count must be the number of children -/
 def counted : PSpec := { pre := full ++ [u "entry_count" 4], count := some "entry_count" }
 
+/-- the WebVTT sample entry (mp4/wvtt.go): 6 reserved bytes, data reference index, then vttC / vlab / btrt … -/
+def wvtt : PSpec := { pre := [zeros 6, u "data_reference_index" 2] }
+
 def prefixed : List (String × PSpec) :=
-  [("stsd", counted), ("dref", counted),
+  [("stsd", counted), ("dref", counted), ("wvtt", wvtt),
    ("avc1", visual), ("avc3", visual), ("hvc1", visual), ("hev1", visual), ("encv", visual), ("av01", visual),
    ("vp08", visual), ("vp09", visual)]
 
